@@ -335,14 +335,15 @@ def real_replay(nworkers, ntasks):
 ENC = ["hypnotoad.utils.parallel_map:ParallelMap.__init__", "hypnotoad.utils.parallel_map:ParallelMap.worker_run",
        "hypnotoad.utils.parallel_map:ParallelMap.__call__", "hypnotoad.utils.parallel_map:ParallelMap.__del__"]
 
-for _nw, _nt, _tier in [(2, 1, "quick"), (2, 2, "quick"), (3, 2, "thorough"), (2, 3, "thorough"), (3, 3, "thorough")]:
+# (3 workers x 3 tasks was tried: > 430 000 schedules explored in 3400 s without finishing; outside the stated bounds)
+for _nw, _nt, _tier in [(2, 1, "quick"), (2, 2, "quick"), (3, 2, "thorough"), (2, 3, "thorough")]:
     OBLIGATIONS.append(Ob("schedules_w%d_t%d" % (_nw, _nt), _mk(_nw, _nt), tier=_tier, family="interleavings x failing position",
                           desc="for every interleaving and every position of a failing task (symbolic, incl. none): result list equals the serial one / "
                                "the caller gets the exception; never blocks, never a spurious error",
                           encodes=ENC, stubs=["multiprocessing -> FIFO/baton model", "dill -> identity"],
                           bounds="%d workers, %d tasks, failing index in -1..%d" % (_nw, _nt, _nt - 1), max_paths=2000000,
                           wall_s=900 if _tier == "quick" else 3400))
-for _nw, _nt, _tier in [(2, 2, "quick"), (3, 3, "thorough")]:
+for _nw, _nt, _tier in [(2, 2, "quick"), (3, 2, "thorough"), (2, 3, "thorough")]:
     OBLIGATIONS.append(Ob("two_failures_w%d_t%d" % (_nw, _nt), _mk(_nw, _nt, nfail=2), tier=_tier, family="interleavings x failing position",
                           desc="up to two failing tasks at symbolic positions: for every interleaving (hence every completion order of the failures) the "
                                "caller gets the exception the serial map raises, i.e. that of the first failing task in task order",
